@@ -72,6 +72,7 @@ VOut(c) == SeqSum([i \in DOMAIN c |-> c[i].dout * c[i].p])
 CyclePnl(c, side, feeN, feeD) ==
   (IF side = "long" THEN VOut(c) - VIn(c) ELSE VIn(c) - VOut(c)) * feeD - feeN * (VIn(c) + VOut(c))
 \* a logged average price (in 1/den ticks, rounded) agrees with the weighted price value/qty
-AvgAgrees(logged, value, qty, den) == /\ qty > 0 /\ qty < 40 /\ SAbs(logged) < 26000000     \* 31-bit budget; NaN sentinel
-                                      /\ 2 * SAbs(logged * qty - value * den) <= qty + 1
+AvgAgrees(logged, value, qty, den) ==
+  /\ qty > 0 /\ SAbs(logged) < 26000000 /\ SAbs(logged) < 1000000000 \div qty /\ value < 1000000000 \div den   \* 31-bit budget; NaN sentinel
+  /\ 2 * SAbs(logged * qty - value * den) <= qty + 1
 =============================================================================
